@@ -43,7 +43,8 @@ def strategy():
     kws = st.dictionaries(st.sampled_from(["a", "b", "código", "x1"]), W.values, max_size=3)
     return st.fixed_dictionaries({"layout": st.sampled_from(["default", "default", "prefix", "halves", "mismatch", "responder-no-codec"]),
                                   "direction": st.sampled_from(["publish", "call", "call-error"]), "args": vals, "kwargs": kws,
-                                  "ser": st.sampled_from(["json", "cbor", "msgpack"]), "xor": st.integers(1, 255), "seed": st.integers(0, 1 << 20)})
+                                  "ser": st.sampled_from(["json", "cbor", "msgpack"]), "xor": st.integers(1, 255), "seed": st.integers(0, 1 << 20),
+                                  "empty": st.sampled_from([False, False, False, True])})    # a request without any arguments (the result still carries the secret)
 
 
 def keyrings(layout):
@@ -133,6 +134,8 @@ def check_flow(c, n_xors=1):
         args = [MARK] + list(c["args"])
         kwargs = dict(c["kwargs"])
         kwargs["m"] = MARK + "-kw"
+        if c.get("empty"):
+            args, kwargs = [], {}
         layout = c["layout"]
         can_decrypt = layout in ("default", "prefix", "halves")
         if c["direction"] == "publish":
@@ -291,7 +294,7 @@ def flows(col, seed, n, xors):
             if in_autobahn(e):
                 raise Violation("C20|exception|" + exc_key(e), repr(e), c)
             raise
-        col.case(True, dig=c, cls=["layout:" + c["layout"], "direction:" + c["direction"], "ser:" + c["ser"]], sample=dict(c, tampered_variants=stats["tampered"]))
+        col.case(True, dig=c, cls=["layout:" + c["layout"], "direction:" + c["direction"], "ser:" + c["ser"]] + (["request-without-arguments"] if c.get("empty") else []), sample=dict(c, tampered_variants=stats["tampered"]))
         col.count("tampered-ciphertexts", stats["tampered"])
     run_hypothesis(col, "flows", strategy(), body, n, seed)
 
